@@ -9,7 +9,7 @@ use std::{
     time::Duration,
 };
 
-use actix_service::Service;
+use actix_service::{Service, ServiceFactory};
 use actix_tls::connect::{self, tcp::TcpConnector, ConnectError, ConnectInfo, Connection, Connector, Resolve, Resolver};
 use futures_core::future::LocalBoxFuture;
 use proptest::prelude::*;
@@ -75,6 +75,10 @@ pub enum Via {
     Split,
     /// TcpConnectorService alone (no resolution at all)
     TcpOnly,
+    /// the service produced by `Connector` as a `ServiceFactory` (`new_service(())`)
+    ConnectorFactory,
+    /// `Resolver` and `TcpConnector` as service factories, chained by hand
+    SplitFactory,
 }
 
 #[derive(Clone, Debug, Serialize, Deserialize, PartialEq)]
@@ -235,8 +239,12 @@ async fn run_tcp(c: &TcpCase) -> CaseResult {
             let svc = Connector::new(resolver).service();
             tokio::time::timeout(Duration::from_secs(10), svc.call(req)).await.map_err(|_| Fail::new("C19/hang", "Connector did not resolve within 10 s"))?
         }
-        Via::Split => {
-            let r = resolver.service();
+        Via::ConnectorFactory => {
+            let svc = ServiceFactory::<ConnectInfo<String>>::new_service(&Connector::new(resolver), ()).await.map_err(|_| Fail::new("C19/factory", "Connector::new_service failed"))?;
+            tokio::time::timeout(Duration::from_secs(10), svc.call(req)).await.map_err(|_| Fail::new("C19/hang", "Connector did not resolve within 10 s"))?
+        }
+        Via::Split | Via::SplitFactory => {
+            let r = if c.via == Via::Split { resolver.service() } else { ServiceFactory::<ConnectInfo<String>>::new_service(&resolver, ()).await.map_err(|_| Fail::new("C19/factory", "Resolver::new_service failed"))? };
             match tokio::time::timeout(Duration::from_secs(10), r.call(req)).await.map_err(|_| Fail::new("C19/hang", "resolver did not resolve within 10 s"))? {
                 Ok(req2) => {
                     // the resolver must hand on exactly the expected address list
@@ -246,7 +254,8 @@ async fn run_tcp(c: &TcpCase) -> CaseResult {
                             return Err(Fail::new("C19/resolution", format!("resolver service produced addresses {:?}, expected {:?} (host {:?}, preset {:?}, set_port {:?})", got, a, host, c.preset, set_port)));
                         }
                     }
-                    tokio::time::timeout(Duration::from_secs(10), TcpConnector::default().service().call(req2)).await.map_err(|_| Fail::new("C19/hang", "TCP connector did not resolve within 10 s"))?
+                    let t = if c.via == Via::Split { TcpConnector::default().service() } else { ServiceFactory::<ConnectInfo<String>>::new_service(&TcpConnector::default(), ()).await.map_err(|_| Fail::new("C19/factory", "TcpConnector::new_service failed"))? };
+                    tokio::time::timeout(Duration::from_secs(10), t.call(req2)).await.map_err(|_| Fail::new("C19/hang", "TCP connector did not resolve within 10 s"))?
                 }
                 Err(e) => Err(e),
             }
@@ -353,6 +362,7 @@ async fn run_tcp(c: &TcpCase) -> CaseResult {
     }
     let bypass = want_lookups == 0 && resolution_runs;
     obs.label_if(bypass, "resolver-bypassed");
+    obs.label_if(matches!(c.via, Via::ConnectorFactory | Via::SplitFactory), "service-from-factory");
     obs.label_if(preset_addrs.is_some() && is_ip, "preset+ip-literal");
     obs.nontrivial = obs.labels.contains(&"closed-before-live") || obs.labels.contains(&"two-live") || bypass || obs.labels.contains(&"resolution-error");
     Ok(obs)
@@ -625,7 +635,7 @@ pub fn tcp_strategy() -> impl Strategy<Value = TcpCase> {
         prop::option::weighted(0.4, 0u8..4),
         prop_oneof![6 => idx().prop_map(|idx| Res::Ok { idx }), 1 => Just(Res::Empty), 1 => Just(Res::Err)],
         prop::bool::weighted(0.3),
-        prop_oneof![4 => Just(Via::Connector), 3 => Just(Via::Split), 1 => Just(Via::TcpOnly)],
+        prop_oneof![3 => Just(Via::Connector), 2 => Just(Via::Split), 1 => Just(Via::TcpOnly), 2 => Just(Via::ConnectorFactory), 1 => Just(Via::SplitFactory)],
         prop::bool::weighted(0.3),
     )
         .prop_map(|(targets, host, preset, set_port, resolver, local_addr, via, local_v6)| TcpCase { targets, host, preset, set_port, resolver, local_addr, via, local_v6 })
@@ -670,7 +680,7 @@ pub fn run(ctx: &Ctx) {
     ctx.run_corpus::<TcpCase>("tcp", check_tcp);
     ctx.run_corpus::<TlsCase>("tls", check_tls);
     ctx.run_random(
-        Part::new("tcp", RULE_TCP, ctx.tier.scale(20_000, 8)).floors(&[("closed-before-live", 0.03), ("two-live", 0.1), ("resolver-bypassed", 0.3), ("resolution-error", 0.1), ("preset+ip-literal", 0.1), ("other-family-address", 0.04), ("all-addresses-other-family", 0.01)]).shrink_iters(2000),
+        Part::new("tcp", RULE_TCP, ctx.tier.scale(20_000, 8)).floors(&[("closed-before-live", 0.03), ("two-live", 0.1), ("resolver-bypassed", 0.3), ("resolution-error", 0.1), ("preset+ip-literal", 0.1), ("other-family-address", 0.04), ("all-addresses-other-family", 0.01), ("service-from-factory", 0.15)]).shrink_iters(2000),
         tcp_strategy,
         check_tcp,
     );
